@@ -61,6 +61,10 @@ pub struct TestSpec {
     /// document / the compiled script large
     #[serde(default)]
     pub pad: u16,
+    /// the command ends by sending this signal to its own shell (`kill -N $$`; 0 = it does not):
+    /// the execution ends without an exit code
+    #[serde(default)]
+    pub kill_self: u8,
 }
 
 impl TestSpec {
@@ -78,6 +82,7 @@ impl TestSpec {
             wait_ms: None,
             trap_term: 0,
             pad: 0,
+            kill_self: 0,
         }
     }
 }
@@ -247,6 +252,11 @@ pub enum DocEnd {
     /// `or_next`: the document limit ran out while scrut waited (`wait`) before test `at`; the
     /// statements do not decide whether `at` or the test case after it is the aborted one
     TimedOut { at: usize, attributed: bool, or_next: bool },
+    /// (Markdown) the shell of test case `at` was killed by a signal: no exit code. That test
+    /// case can never be a success (C05); the statements do not say whether the following ones
+    /// are run (scrut does not run them and reports each as failed) - only that nothing exited
+    /// with a skip code and nothing timed out, so none of them is `skipped`
+    Killed { at: usize },
     Aborted(&'static str),
 }
 
@@ -256,6 +266,7 @@ impl DocEnd {
             DocEnd::Completed => "completed",
             DocEnd::Skipped { .. } => "skipped",
             DocEnd::TimedOut { .. } => "timed-out",
+            DocEnd::Killed { .. } => "killed",
             DocEnd::Aborted(_) => "aborted",
         }
     }
@@ -507,6 +518,28 @@ fn finalize(seq: &mut [TestModel], base: &[Option<Class>], end: &DocEnd, ran_upt
                 }
             }
         }
+        DocEnd::Killed { at } => {
+            fails = true;
+            for (i, t) in seq.iter_mut().enumerate() {
+                t.min = if t.detached { 0 } else { 1 };
+                t.max = 1;
+                if i < *at {
+                    t.run = Run::Must;
+                    if t.detached {
+                        t.max = 0;
+                        t.classes = vec![];
+                    } else {
+                        t.classes = base[i].map(|c| vec![c]).unwrap_or_default();
+                    }
+                } else if i == *at {
+                    t.run = Run::Must;
+                    t.classes = vec![Class::Fail];
+                } else {
+                    t.run = Run::May;
+                    t.classes = vec![Class::Pass, Class::Fail];
+                }
+            }
+        }
         DocEnd::Aborted(_) => {
             for t in seq.iter_mut() {
                 t.run = Run::May;
@@ -617,7 +650,7 @@ fn model_doc(run: &RunSpec, doc: &DocSpec) -> Result<DocModel, Undecided> {
                 }
             }
             if t.detached {
-                if t.sleep_ms > 0 || t.timeout_ms.is_some() || t.wait_ms.is_some() {
+                if t.sleep_ms > 0 || t.timeout_ms.is_some() || t.wait_ms.is_some() || t.kill_self != 0 {
                     return Err("detached test case with timing".into());
                 }
                 // not waited for: no exit code observed, no result
@@ -677,6 +710,21 @@ fn model_doc(run: &RunSpec, doc: &DocSpec) -> Result<DocModel, Undecided> {
             }
             elapsed += t.sleep_ms;
             base[i] = Some(validation_class(t));
+            if t.kill_self != 0 {
+                if script {
+                    // the whole script dies: scrut gives up on the run; not modelled
+                    return Err("a test case kills the shell of a script-mode document".into());
+                }
+                if t.sleep_ms > 0 || t.timeout_ms.is_some() || t.wait_ms.is_some() {
+                    return Err("a test case that kills its shell, with timing".into());
+                }
+                if tests[i + 1..].iter().any(|(_, r)| r.detached) {
+                    return Err("detached test case after a killed shell".into());
+                }
+                end = DocEnd::Killed { at: i };
+                ran_upto = i;
+                break;
+            }
 
             match script {
                 false => {
